@@ -125,3 +125,269 @@ Proof.
   - intros b' Hm'. cbn [marshal_packet tag_of_packet decode_as] in *.
     rewrite (SR_dec_enc_dec f s Hu Hm b' Hm'). reflexivity.
 Qed.
+
+Lemma RR_frame_reencode f r : framed16 f -> RR_unmarshal f = Ok r ->
+  forall b', RR_marshal r = Ok b' -> decode_frame b' = Ok (PRR r) /\ framed16 b'.
+Proof.
+  intros Hf Hu. destruct (framed16_mod4 f Hf) as [Hm Hl].
+  pose proof (RR_unmarshal_image f r Hu) as HD.
+  apply (reenc_supported (PRR r)); [reflexivity|exact HD| |].
+  - cbn [enc_spec]. rewrite len_enc_RR. apply RR_unmarshal_alloc_N in Hu.
+    unfold RR_size. consts. pose proof (get_padding_spec (len (rcv_ext r))). lia.
+  - intros b' Hm'. cbn [marshal_packet tag_of_packet decode_as] in *.
+    rewrite (RR_dec_enc_dec f r Hu Hm b' Hm'). reflexivity.
+Qed.
+
+Lemma SChunk_len_lt4 c : SChunk_len c < 4 + items_wire (ch_items c) + 1 + 4.
+Proof.
+  unfold SChunk_len. rewrite items_wire_fold. consts.
+  pose proof (get_padding_spec (4 + items_wire (ch_items c) + 1)). lia.
+Qed.
+
+(* the padded chunks a successful chunk loop returns overshoot the input by less than one word *)
+Lemma chunks_loop_size : forall fuel raw i cs, chunks_loop fuel raw i = Ok cs -> i <= len raw ->
+  i + fold_right (fun c acc => SChunk_len c + acc) 0 cs <= len raw + 3.
+Proof.
+  induction fuel as [|f IH]; intros raw i cs; cbn [chunks_loop]; [discriminate|].
+  destruct (N.ltb_spec i (len raw)).
+  - rewrite slice_from_ok by lia. cbn [bind].
+    destruct (SChunk_unmarshal _) as [c| | |] eqn:EC; cbn [bind]; try discriminate.
+    apply SChunk_unmarshal_ok in EC. rewrite len_skipn in EC.
+    pose proof (SChunk_len_lt4 c) as G.
+    destruct (chunks_loop f raw (i + SChunk_len c)) as [cs1| | |] eqn:EL; cbn [bind]; try discriminate.
+    intros E Hi. inversion E; subst. cbn [fold_right].
+    destruct (N.le_gt_cases (i + SChunk_len c) (len raw)) as [L|L].
+    + apply IH in EL; lia.
+    + destruct f as [|f']; cbn [chunks_loop] in EL; [discriminate|].
+      destruct (N.ltb_spec (i + SChunk_len c) (len raw)); [lia|].
+      inversion EL; subst. cbn [fold_right]. lia.
+  - intros E Hi. inversion E; subst. cbn [fold_right]. lia.
+Qed.
+
+Lemma SDES_unmarshal_size b s : SDES_unmarshal b = Ok s -> SDES_size s <= len b + 3.
+Proof.
+  unfold SDES_unmarshal, SDES_size.
+  destruct (Header_unmarshal b) as [h| | |] eqn:EH; cbn [bind]; try discriminate.
+  apply Header_unmarshal_ok in EH as (Hl & _).
+  destruct (negb _); [discriminate|].
+  destruct (chunks_loop (S (length b)) b c_headerLength) as [cs| | |] eqn:EL; cbn [bind]; try discriminate.
+  apply chunks_loop_size in EL; [|consts; lia]. consts.
+  destruct (negb _); [discriminate|]. intros E. inversion E; subst s. cbn [sd_chunks]. exact EL.
+Qed.
+
+Lemma SDES_frame_reencode f s : framed16 f -> SDES_unmarshal f = Ok s ->
+  forall b', SDES_marshal s = Ok b' -> decode_frame b' = Ok (PSDES s) /\ framed16 b'.
+Proof.
+  intros Hf Hu. destruct (framed16_mod4 f Hf) as [Hm Hl].
+  pose proof (SDES_unmarshal_image f s Hu) as HD.
+  apply (reenc_supported (PSDES s)); [reflexivity|exact HD| |].
+  - cbn [enc_spec]. destruct (SDES_size_spec_gen s) as [E _]. rewrite E. apply SDES_unmarshal_size in Hu. lia.
+  - intros b' Hm'. cbn [marshal_packet tag_of_packet decode_as] in *.
+    rewrite (SDES_dec_enc_dec f s Hu b' Hm'). reflexivity.
+Qed.
+
+Lemma BYE_frame_reencode f g : BYE_unmarshal f = Ok g ->
+  forall b', BYE_marshal g = Ok b' -> decode_frame b' = Ok (PBYE g) /\ framed16 b'.
+Proof.
+  intros Hu. pose proof (BYE_unmarshal_image f g Hu) as HD.
+  apply (reenc_supported (PBYE g)); [reflexivity|exact HD| |].
+  - apply len_bound_auto; [reflexivity|exact HD|reflexivity].
+  - intros b' Hm'. cbn [marshal_packet tag_of_packet decode_as] in *.
+    rewrite (BYE_dec_enc_dec f g Hu b' Hm'). reflexivity.
+Qed.
+
+Lemma APP_frame_reencode f a : APP_unmarshal f = Ok a ->
+  forall b', APP_marshal a = Ok b' -> decode_frame b' = Ok (PAPP a) /\ framed16 b'.
+Proof.
+  intros Hu b' Hm. pose proof (APP_unmarshal_image_gen f a Hu) as (H1 & H2 & H3 & _).
+  assert (Hok : exists x, APP_marshal a = Ok x) by (exists b'; exact Hm).
+  apply APP_marshal_ok_iff in Hok as (_ & _ & Hd).
+  assert (HD : D_APP a = true).
+  { unfold D_APP. rewrite H1, H2, H3. cbn [andb N.eqb Pos.eqb]. apply N.leb_le. exact Hd. }
+  revert b' Hm. apply (reenc_supported (PAPP a)); [reflexivity|exact HD| |].
+  - apply len_bound_auto; [reflexivity|exact HD|reflexivity].
+  - intros b' Hm'. cbn [marshal_packet tag_of_packet decode_as] in *.
+    rewrite (APP_dec_enc_dec f a Hu b' Hm'). reflexivity.
+Qed.
+
+(* ------------------------------------------------------------------------------------------------ *)
+(* feedback: NACK, PLI, RRR, FIR, CCFB, REMB, TWCC                                                   *)
+(* ------------------------------------------------------------------------------------------------ *)
+Lemma NACK_frame_reencode f p : NACK_unmarshal f = Ok p ->
+  forall b', NACK_marshal p = Ok b' -> decode_frame b' = Ok (PNACK p) /\ framed16 b'.
+Proof.
+  intros Hu b' Hm. pose proof (NACK_unmarshal_image f p Hu) as (Hs & Hme & H1 & Hd).
+  destruct (N.le_gt_cases (nl (nack_pairs p)) 253) as [Hn|Hn];
+    [|rewrite NACK_marshal_limit in Hm by exact Hn; discriminate Hm].
+  pose proof (NACK_image_D p Hs Hme H1 Hn Hd) as HD.
+  revert b' Hm. apply (reenc_supported (PNACK p)); [reflexivity|exact HD| |].
+  - apply len_bound_auto; [reflexivity|exact HD|reflexivity].
+  - intros b' Hm'. cbn [marshal_packet tag_of_packet decode_as] in *.
+    rewrite (NACK_dec_enc_dec f p Hu b' Hm'). reflexivity.
+Qed.
+
+Lemma PLI_frame_reencode f p : PLI_unmarshal f = Ok p ->
+  forall b', PLI_marshal p = Ok b' -> decode_frame b' = Ok (PPLI p) /\ framed16 b'.
+Proof.
+  intros Hu. pose proof (PLI_unmarshal_image f p Hu) as HD.
+  apply (reenc_supported (PPLI p)); [reflexivity|exact HD| |].
+  - apply len_bound_auto; [reflexivity|exact HD|reflexivity].
+  - intros b' Hm'. cbn [marshal_packet tag_of_packet decode_as] in *.
+    rewrite (PLI_dec_enc_dec f p Hu b' Hm'). reflexivity.
+Qed.
+
+Lemma RRR_frame_reencode f p : RRR_unmarshal f = Ok p ->
+  forall b', RRR_marshal p = Ok b' -> decode_frame b' = Ok (PRRR p) /\ framed16 b'.
+Proof.
+  intros Hu. pose proof (RRR_unmarshal_image f p Hu) as HD.
+  apply (reenc_supported (PRRR p)); [reflexivity|exact HD| |].
+  - apply len_bound_auto; [reflexivity|exact HD|reflexivity].
+  - intros b' Hm'. cbn [marshal_packet tag_of_packet decode_as] in *.
+    rewrite (RRR_dec_enc_dec f p Hu b' Hm'). reflexivity.
+Qed.
+
+(* FIR: the image holds up to 8190 entries (D_FIR stops at 8000), so the frame is handled directly *)
+Lemma FIR_frame_reencode f p : FIR_unmarshal f = Ok p -> 1 <= nl (fir_entries p) ->
+  forall b', FIR_marshal p = Ok b' -> decode_frame b' = Ok (PFIR p) /\ framed16 b'.
+Proof.
+  intros Hu H1 b' Hm. pose proof (FIR_unmarshal_image f p Hu) as (Hs & Hme & Hn & Hd).
+  rewrite FIR_marshal_wide in Hm by exact Hn. injection Hm as <-.
+  pose proof (FIR_unmarshal_enc_wide p Hs Hme H1 Hn Hd) as He.
+  unfold enc_FIR in *.
+  change (fun e : FIREntry => be 4 (fir_ssrc e) ++ be 1 (fir_seq e) ++ be 3 0) with enc_fir in *.
+  match type of He with FIR_unmarshal (frame false 4 206 ?b) = _ =>
+    assert (Hb : len b = 8 + 8 * nl (fir_entries p)) end.
+  { rewrite !len_app, !len_be, (len_concat_const enc_fir 8) by apply len_enc_fir.
+    change (N.of_nat 4) with 4. lia. }
+  apply reenc_frame; [lia|lia|rewrite Hb; lia|rewrite Hb; lia|].
+  change (registry 206 4) with TFIR. cbn [decode_as]. rewrite He. reflexivity.
+Qed.
+
+Lemma CCFB_image_D f p b' : CCFB_unmarshal f = Ok p -> CCFB_marshal p = Ok b' ->
+  D_CCFB p = true /\ CCFB_size p <= len f + 6 /\ CCFB_size p mod 4 = 0.
+Proof.
+  intros Hu Hm. apply CCFB_unmarshal_image in Hu as [HI Hsz].
+  pose proof (CCFB_marshal_ok_limit _ _ Hm) as HL. split; [|split; [exact Hsz|]].
+  - unfold D_CCFB_img in HI. apply andb_true_iff in HI as [HI HB]. unfold D_CCFB. rewrite HI. cbn [andb].
+    apply D_ccblocks_of_img; assumption.
+  - pose proof (blocks_len_mod4 (cc_blocks p)) as M4. rewrite CCFB_size_blocks. lia.
+Qed.
+
+Lemma CCFB_frame_reencode f p : CCFB_unmarshal f = Ok p -> len f <= 262137 ->
+  forall b', CCFB_marshal p = Ok b' -> decode_frame b' = Ok (PCCFB p) /\ framed16 b'.
+Proof.
+  intros Hu Hlen b' Hm. destruct (CCFB_image_D f p b' Hu Hm) as (HD & Hsz & M4).
+  assert (Hs : supported (PCCFB p) = true) by (cbn [supported]; apply N.leb_le; lia).
+  revert b' Hm. apply (reenc_supported (PCCFB p)); [exact Hs|exact HD| |].
+  - apply len_bound_auto; [exact Hs|exact HD|reflexivity].
+  - intros b' Hm'. cbn [marshal_packet tag_of_packet decode_as] in *.
+    rewrite (CCFB_dec_enc_dec f p Hu Hlen b' Hm'). reflexivity.
+Qed.
+
+(* REMB: a bitrate that is the decoding of a pair with a non-zero mantissa is in the domain, with integer part >= 1 *)
+Lemma REMB_stable_D p e m : fits 32 (remb_sender p) = true -> nl (remb_ssrcs p) <= 255 ->
+  forallb (fits 32) (remb_ssrcs p) = true -> (0 <= e < 64)%Z -> (0 < m < 2 ^ 18)%Z ->
+  remb_bitrate p = Z.to_N (remb_dec e m) -> D_REMB p = true /\ remb_floor_pos p = true.
+Proof.
+  intros Hs Hn Hss He Hm Hb. destruct (remb_dec_props e m He Hm) as (Hlt & HF & v & HV). split.
+  - unfold D_REMB. rewrite Hs, Hss, Hb, HV. destruct (N.leb_spec (nl (remb_ssrcs p)) 255); [|lia].
+    unfold fits. change (2 ^ 32) with 4294967296. destruct (N.ltb_spec (Z.to_N (remb_dec e m)) 4294967296); [reflexivity|lia].
+  - unfold remb_floor_pos. rewrite Hb, HF. apply Z.leb_le.
+    assert (HP : (0 < 2 ^ e)%Z) by (apply pow2_pos; lia). nia.
+Qed.
+
+Lemma REMB_image_D f p : REMB_unmarshal f = Ok p -> (remb_mant_field f <> 0 \/ remb_exp_field f < 58) ->
+  D_REMB p = true /\ remb_floor_pos p = true.
+Proof.
+  intros H Hc. apply REMB_unmarshal_fields in H as (Hs & Hn & Hss & He & Hm & Hb).
+  destruct (N.eq_dec (remb_mant_field f) 0) as [Z0|NZ].
+  - assert (He58 : remb_exp_field f < 58) by (destruct Hc as [A|A]; [congruence|exact A]).
+    rewrite Z0 in Hb. change (Z.of_N 0) with 0%Z in Hb. rewrite remb_dec_zero_alt in Hb by lia.
+    apply (REMB_stable_D p (Z.of_N (remb_exp_field f) + 6)%Z (2 ^ 17)%Z); try assumption; [lia|].
+    change (2 ^ 17)%Z with 131072%Z. change (2 ^ 18)%Z with 262144%Z. lia.
+  - apply (REMB_stable_D p (Z.of_N (remb_exp_field f)) (Z.of_N (remb_mant_field f))); try assumption; [lia|].
+    change (2 ^ 18)%Z with 262144%Z. lia.
+Qed.
+
+Lemma REMB_frame_reencode f p : REMB_unmarshal f = Ok p -> (remb_mant_field f <> 0 \/ remb_exp_field f < 58) ->
+  forall b', REMB_marshal p = Ok b' -> decode_frame b' = Ok (PREMB p) /\ framed16 b'.
+Proof.
+  intros Hu Hc. destruct (REMB_image_D f p Hu Hc) as [HD Hs].
+  apply (reenc_supported (PREMB p)); [exact Hs|exact HD| |].
+  - apply len_bound_auto; [exact Hs|exact HD|reflexivity].
+  - intros b' Hm'. cbn [marshal_packet tag_of_packet decode_as] in *.
+    rewrite (REMB_dec_enc_dec f p Hu Hc b' Hm'). reflexivity.
+Qed.
+
+Lemma TWCC_frame_reencode f t : TWCC_unmarshal f = Ok t -> twcc_hdr_consistent t = true ->
+  forall b', TWCC_marshal t = Ok b' -> decode_frame b' = Ok (PTWCC t) /\ framed16 b'.
+Proof.
+  intros Hu Hc. pose proof (TWCC_unmarshal_in_D f t Hu Hc) as HD.
+  apply (reenc_supported (PTWCC t)); [reflexivity|exact HD| |].
+  - apply len_bound_auto; [reflexivity|exact HD|reflexivity].
+  - intros b' Hm'. cbn [marshal_packet tag_of_packet decode_as] in *.
+    rewrite (TWCC_dec_enc_dec f t Hu Hc b' Hm'). reflexivity.
+Qed.
+
+(* ------------------------------------------------------------------------------------------------ *)
+(* XR (up to the header bookkeeping of the blocks), Raw                                              *)
+(* ------------------------------------------------------------------------------------------------ *)
+Lemma XR_frame_reencode f x : framed16 f -> XR_unmarshal f = Ok x ->
+  forall b', XR_marshal x = Ok b' ->
+  exists x', decode_frame b' = Ok (PXR x') /\ framed16 b' /\ pkt_equiv (PXR x) (PXR x').
+Proof.
+  intros Hf Hu b' Hb'. destruct (framed16_mod4 f Hf) as [Hm Hl].
+  destruct (XR_unmarshal_image_len f x Hu Hm) as (W & S & L).
+  pose proof (XR_unmarshal_image f x Hu Hm) as [_ HD].
+  pose proof (XR_marshal_spec x W) as Hspec.
+  rewrite Hspec in Hb'. injection Hb' as <-.
+  assert (Hlen : len (enc_XR x) < 262144) by (rewrite len_enc_XR; lia).
+  destruct (XR_roundtrip_canon x HD W Hlen) as (x' & Hu' & Hcan & _).
+  destruct (XR_dec_enc_dec f x Hu Hm ltac:(lia) (enc_XR x) Hspec) as (x'' & Hu'' & Habs & Hse).
+  rewrite Hu' in Hu''. injection Hu'' as <-.
+  destruct (XR_framing x W Hlen) as (_ & _ & F & _).
+  assert (E : decode_frame (enc_XR x) = decode_as TXR (enc_XR x)).
+  { unfold enc_XR. rewrite frame_decode by lia. reflexivity. }
+  exists x'. split; [|split; [exact F|]].
+  - rewrite E. cbn [decode_as]. rewrite Hu'. reflexivity.
+  - cbn [pkt_equiv]. exists x'. split; [reflexivity|]. split; [exact Hse|]. split; [exact Habs|exact Hcan].
+Qed.
+
+Lemma Raw_frame_reencode f b : framed16 f -> decode_frame f = Ok (PRaw b) ->
+  forall b', marshal_packet (PRaw b) = Ok b' -> decode_frame b' = Ok (PRaw b) /\ framed16 b'.
+Proof.
+  intros Hf Hd b' Hm. cbn [marshal_packet] in Hm. injection Hm as <-.
+  pose proof Hd as Hd'. apply decode_frame_inv in Hd' as (h & _ & _ & _ & Hr).
+  assert (E : b = f).
+  { revert Hr. unfold Raw_unmarshal. destruct (len f <? c_headerLength); [discriminate|].
+    destruct (Header_unmarshal f); cbn [bind]; intros X; try discriminate X. injection X as <-. reflexivity. }
+  subst b. split; assumption.
+Qed.
+
+(* ------------------------------------------------------------------------------------------------ *)
+(* 1. per frame                                                                                      *)
+(* ------------------------------------------------------------------------------------------------ *)
+Theorem frame_reencode f p : framed16 f -> decode_frame f = Ok p -> stable_pkt f p ->
+  forall b', marshal_packet p = Ok b' ->
+  exists p', decode_frame b' = Ok p' /\ framed16 b' /\ pkt_equiv p p'.
+Proof.
+  intros Hf Hd Hst b' Hm. pose proof Hd as Hd'. apply decode_frame_inv in Hd' as (h & Hh & _ & Hby).
+  destruct p as [x|x|x|x|x|x|x|x|x|x|x|x|x|x|b|l]; cbn [decoded_by] in Hby; cbn [stable_pkt] in Hst;
+    cbn [marshal_packet] in Hm; try destruct Hby as [_ Hu].
+  - destruct (SR_frame_reencode f x Hf Hu b' Hm) as [A B]. exists (PSR x). split; [exact A|split; [exact B|reflexivity]].
+  - destruct (RR_frame_reencode f x Hf Hu b' Hm) as [A B]. exists (PRR x). split; [exact A|split; [exact B|reflexivity]].
+  - destruct (SDES_frame_reencode f x Hf Hu b' Hm) as [A B]. exists (PSDES x). split; [exact A|split; [exact B|reflexivity]].
+  - destruct (BYE_frame_reencode f x Hu b' Hm) as [A B]. exists (PBYE x). split; [exact A|split; [exact B|reflexivity]].
+  - destruct (APP_frame_reencode f x Hu b' Hm) as [A B]. exists (PAPP x). split; [exact A|split; [exact B|reflexivity]].
+  - destruct (NACK_frame_reencode f x Hu b' Hm) as [A B]. exists (PNACK x). split; [exact A|split; [exact B|reflexivity]].
+  - destruct (RRR_frame_reencode f x Hu b' Hm) as [A B]. exists (PRRR x). split; [exact A|split; [exact B|reflexivity]].
+  - destruct (TWCC_frame_reencode f x Hu Hst b' Hm) as [A B]. exists (PTWCC x). split; [exact A|split; [exact B|reflexivity]].
+  - destruct (CCFB_frame_reencode f x Hu Hst b' Hm) as [A B]. exists (PCCFB x). split; [exact A|split; [exact B|reflexivity]].
+  - destruct (PLI_frame_reencode f x Hu b' Hm) as [A B]. exists (PPLI x).  split; [exact A|split; [exact B|reflexivity]].
+  - exfalso. exact (decode_frame_never_sli f x Hd).
+  - destruct (REMB_frame_reencode f x Hu Hst b' Hm) as [A B]. exists (PREMB x). split; [exact A|split; [exact B|reflexivity]].
+  - destruct (FIR_frame_reencode f x Hu Hst b' Hm) as [A B]. exists (PFIR x). split; [exact A|split; [exact B|reflexivity]].
+  - destruct (XR_frame_reencode f x Hf Hu b' Hm) as (x' & A & B & C). exists (PXR x'). split; [exact A|split; [exact B|exact C]].
+  - destruct (Raw_frame_reencode f b Hf Hd b' Hm) as [A B]. exists (PRaw b). split; [exact A|split; [exact B|reflexivity]].
+  - destruct Hby.
+Qed.
